@@ -16,7 +16,9 @@ Semantics of the subset (the translator's conventions):
     reaches a place that needs a natural (an index, a `range` start, an argument declared `Nat`) only through `.toNat` of an
     expression that is visibly non-negative (`max(e, n)` with `n` natural), a `range` end may be negative (`pyRange`);
     fixed-width NumPy integer types are NOT modelled: no overflow (see `Lemmas/SrcLibNp.lean`), dtype conversions
-    (`astype`, `dtype=`, `int(...)` of an integer) are the identity and are recorded as written in `srcConversions_<f>`;
+    (`astype`, `dtype=`, `int(...)` of an integer) are the identity and are recorded in `srcConversions_<f>` WITH THEIR POSITION:
+    `<path of the statement in the function> | <the statement as written> | <the conversion with its argument>` (where an `int()`
+    stands decides which NumPy scalar type the arithmetic after it runs in, which the translation cannot see);
   * an in-place update (`l[k] = e`, `l[k] -= e`, `l.append(e)`) gives the ONE name `l` a new value; it is accepted only for a list
     created in the function (`list(…)`, a list display, `np.zeros`) that no other name refers to: a parameter, an alias `a = b` or a
     NumPy view would make that reading unsound and is outside the subset;
@@ -39,6 +41,18 @@ Semantics of the subset (the translator's conventions):
 A source outside the subset gives `def srcShape_<f> : Bool := false` and the broken obligation `srcShape_<f>_recognised`.
 What is not translated is pinned as text: `srcSkeleton_<f>` (the body with the translated statements as `...`, or the whole
 body for `region="pin"` targets), `srcSignature_<function>`, `srcConversions_<f>`, `srcBindings_mgh`.
+
+What the obligations cannot see and the translator therefore REFUSES (the obligations hold up to definitional unfolding, which
+absorbs a `let` that nothing reads):
+  * DEAD STORES: after a function / loop / nested function is generated, every `let` and every bound result must be read by what
+    follows it (`check_live`); a loop-carried name must be read by the loop itself or after it.  The table's `unread=` lists the
+    stores of the unchanged source that nothing reads (printed in the generated header);
+  * a name the translation resolves BY SPELLING (`int`, `len`, `np`, …, the module's functions, the nested functions) must not
+    be bound anywhere in the function; a nested function is defined once, at the top level of the body; SSA versions `x_k` avoid
+    every identifier of the Python function;
+  * a parameter that is not modelled (`mapping_sample_size_order`) must reach the callee: passed at every call, never re-bound;
+  * the argument of the recorded draw `np.random.choice(len(DY))` must be the parameter the draw's contract names;
+  * a statement the table leaves untranslated (`skip`) must stand at the top level of the body (where the skeleton shows it).
 """
 import ast, os, re
 
@@ -146,8 +160,10 @@ def proj(text, i, n):
 # ----------------------------------------------------------------------------- nodes (every node denotes an `Except PyErr τ`)
 
 class Ret:
-    def __init__(self, text, raw=False):
-        self.text, self.raw = text, raw
+    """`passthrough`: the recursive call / the exit tuple of a loop definition (hands the carried values on: not a READ of them
+    for the dead-store check)"""
+    def __init__(self, text, raw=False, passthrough=False):
+        self.text, self.raw, self.passthrough = text, raw, passthrough
 
 
 class Fail:
@@ -156,8 +172,10 @@ class Fail:
 
 
 class Let:
-    def __init__(self, name, ty, text, body):
-        self.name, self.ty, self.text, self.body = name, ty, text, body
+    """`structural`: the value of a loop-carried name after the loop, for a name that the loop itself reads (no store of the
+    source stands behind it: exempt from the dead-store check)"""
+    def __init__(self, name, ty, text, body, structural=False):
+        self.name, self.ty, self.text, self.body, self.structural = name, ty, text, body, structural
 
 
 class Bind:
@@ -276,6 +294,143 @@ def names_in(node):
     return {n.id for n in ast.walk(node) if isinstance(n, ast.Name)}
 
 
+# ----------------------------------------------------------------------------- dead-store check on the GENERATED bindings
+# The obligations hold up to definitional unfolding, so a generated `let` that nothing reads would be absorbed by them; a store
+# of the source that the translation turns into such a `let` (a late `x = int(x)`, a store to a name that only untranslated text
+# or Python's own machinery reads) is therefore refused, unless the table lists it (`unread=`, printed in the generated header).
+
+TOKEN = re.compile(r"(?<![\w.'])([A-Za-z_][\w']*)")
+
+
+def tokens(text):
+    """identifiers that a Lean text reads (`x.1`, `l.length`: the head only)"""
+    return set(TOKEN.findall(text))
+
+
+def node_reads(n, passthrough=True):
+    """the identifiers the node's texts mention; `passthrough=False`: without the recursive call / exit tuple of a loop"""
+    if isinstance(n, Ret):
+        return set() if (n.passthrough and not passthrough) else tokens(n.text)
+    if isinstance(n, Fail):
+        return set()
+    if isinstance(n, Let):
+        return tokens(n.text) | node_reads(n.body, passthrough)
+    if isinstance(n, Bind):
+        head = tokens(n.scrut) if isinstance(n.scrut, str) else node_reads(n.scrut[0], passthrough)
+        return head | node_reads(n.body, passthrough)
+    if isinstance(n, Ite):
+        return tokens(n.cond) | node_reads(n.a, passthrough) | node_reads(n.b, passthrough)
+    if isinstance(n, Arms):
+        out = tokens(n.scrut)
+        for _, body in n.arms:
+            out |= node_reads(body, passthrough)
+        return out
+    raise Shape("internal: node")
+
+
+def check_live(n, allow, where):
+    """every `let` / bound result of the node is read by what follows it (names are never re-used inside one definition, see
+    `Tr.fresh`, so an occurrence of the name IS a read of that binding)"""
+    if isinstance(n, Let):
+        if not n.structural and n.name not in allow and n.name not in node_reads(n.body):
+            raise Shape("dead store: the value bound to `%s` in %s is never read by the translated code (a store that only "
+                        "untranslated text could observe is outside the subset)" % (n.name, where))
+        check_live(n.body, allow, where)
+    elif isinstance(n, Bind):
+        if not isinstance(n.scrut, str):
+            check_live(n.scrut[0], allow, where)
+        if n.var not in allow and n.var not in node_reads(n.body):
+            raise Shape("dead store: the result bound to `%s` in %s is never read by the translated code" % (n.var, where))
+        check_live(n.body, allow, where)
+    elif isinstance(n, Ite):
+        check_live(n.a, allow, where)
+        check_live(n.b, allow, where)
+    elif isinstance(n, Arms):
+        for _, body in n.arms:
+            check_live(body, allow, where)
+
+
+def stmt_paths(body, prefix="@"):
+    """id(statement) -> its position in the function: `@3` the third statement of the body (after the docstring), `@3.2` the
+    second statement of its body, `.e2` of its `else`, `.h1.2` of its first handler, `.f1` of its `finally`; nested `def`s are
+    entered (their docstring is not counted)"""
+    out = {}
+
+    def go(seq, pre):
+        for k, st in enumerate(seq):
+            path = "%s%d" % (pre, k + 1)
+            out[id(st)] = path
+            if isinstance(st, (ast.FunctionDef, ast.AsyncFunctionDef, ast.ClassDef)):
+                go(strip_doc(st.body), path + ".")
+                continue
+            for field, tag in (("body", ""), ("orelse", "e"), ("finalbody", "f")):
+                sub = getattr(st, field, None)
+                if isinstance(sub, list) and sub and isinstance(sub[0], ast.stmt):
+                    go(sub, "%s.%s" % (path, tag))
+            for hk, h in enumerate(getattr(st, "handlers", []) or []):
+                go(h.body, "%s.h%d." % (path, hk + 1))
+    go(body, prefix)
+    return out
+
+
+def head_text(s):
+    """a statement as one line: itself, or the header line of a compound statement"""
+    return ast.unparse(s).split("\n")[0]
+
+
+def bound_names(fn):
+    """every name that `fn` (nested functions included) binds anywhere, by any binding form, except its own parameters"""
+    out = set()
+    for n in ast.walk(fn):
+        if isinstance(n, ast.Name) and isinstance(n.ctx, (ast.Store, ast.Del)):
+            out.add(n.id)
+        elif isinstance(n, ast.arg) and not any(n is a for a in fn.args.args):
+            out.add(n.arg)
+        elif isinstance(n, (ast.FunctionDef, ast.AsyncFunctionDef, ast.ClassDef)) and n is not fn:
+            out.add(n.name)
+        elif isinstance(n, ast.ExceptHandler) and n.name:
+            out.add(n.name)
+        elif isinstance(n, ast.alias):
+            out.add((n.asname or n.name).split(".")[0])
+        elif isinstance(n, (ast.Global, ast.Nonlocal)):
+            out.update(n.names)
+        elif type(n).__name__ in ("MatchAs", "MatchStar") and getattr(n, "name", None):
+            out.add(n.name)
+        elif type(n).__name__ == "MatchMapping" and getattr(n, "rest", None):
+            out.add(n.rest)
+    return out
+
+
+def identifiers(fn):
+    """every identifier that occurs in `fn`: names, parameters, attributes, nested definitions"""
+    out = set()
+    for n in ast.walk(fn):
+        if isinstance(n, ast.Name):
+            out.add(n.id)
+        elif isinstance(n, ast.arg):
+            out.add(n.arg)
+        elif isinstance(n, ast.Attribute):
+            out.add(n.attr)
+        elif isinstance(n, (ast.FunctionDef, ast.AsyncFunctionDef, ast.ClassDef)):
+            out.add(n.name)
+        elif isinstance(n, ast.ExceptHandler) and n.name:
+            out.add(n.name)
+        elif isinstance(n, ast.keyword) and n.arg:
+            out.add(n.arg)
+    return out
+
+
+# names the translation resolves BY SPELLING (builtins, the module alias, the dtype helper): binding one of them inside a translated
+# function (assignment, loop / comprehension target, nested parameter, `def`, `import`, …) is outside the subset
+SPELLED = {"int", "len", "list", "min", "max", "abs", "next", "range", "np", "determine_optimal_int_type", "StopIteration", "tuple"}
+
+# identifiers of Lemmas/SrcLibNp.lean / core Lean that generated text mentions: never handed out as the name of a binding
+LIB_NAMES = {"getItem", "setItem", "pyRange", "nextWhere", "zeros2", "scatter2", "dropLastCol", "minTop", "leTop", "uniqueCounts",
+             "cpxLt", "tagRows", "anyUpperLt", "colCountLt", "colSumGe", "npArgmin", "bottlenecksFrom", "deleteRow", "deleteCol",
+             "npMax", "some", "none", "PyErr", "Int", "Option", "Bool", "Nat", "Rat", "List", "uniqueMaxDistributions", "bind", "ok",
+             "error", "map", "zipWith", "range", "reverse", "tail", "length", "toNat", "natAbs", "isNone", "isSome"}
+
+
 # ----------------------------------------------------------------------------- the translator
 
 BIN = {ast.Add: ("+", 65), ast.Sub: ("-", 65), ast.Mult: ("*", 70)}
@@ -286,7 +441,7 @@ class Tr:
     def __init__(self, unit, cfg, parent=None):
         self.unit, self.cfg, self.parent = unit, cfg, parent
         self.env = {}                        # python name -> V
-        self.used = set(LEAN_RESERVED) | {"fuel", "e", "rest"}
+        self.used = set(LEAN_RESERVED) | {"fuel", "e", "rest"} | LIB_NAMES
         self.pre = []                        # pending hoists (node -> node), outermost first
         self.facts = []                      # (lo text, hi text, names) : lo <= hi holds here
         self.captured = {}                   # python name -> (param V here, V in the parent)   [sub-translators]
@@ -303,11 +458,30 @@ class Tr:
         if base == "_":
             base = "t"
         name, k = base, 0
-        while name in self.used:
+        # an SSA version `x_k` is never a name that occurs as an identifier in the Python function (no capture between a
+        # Python local literally called `x_1` and the translator's own versions)
+        while name in self.used or (k > 0 and name in self.unit.pyidents) or self.unit.is_defname(name):
             k += 1
             name = "%s_%d" % (base, k)
         self.used.add(name)
         return name
+
+    def binds(self, py):
+        """`py` is about to be bound by the translated code: not a name the translation resolves by spelling, not a parameter
+        that is not modelled"""
+        if py in self.unit.spelled:
+            raise Shape("`%s` is bound inside the function, but the translation resolves that name by spelling (a builtin, `np`, a "
+                        "nested / module-level function)" % py)
+        if py in self.unit.unmodelled:
+            raise Shape("`%s` is a parameter that is not modelled (it must reach the callee unchanged): it is re-bound" % py)
+
+    def record_conversion(self, node):
+        """a dtype / int conversion read as the identity: pinned WITH its position (path of the statement in the function, the
+        statement as written, the conversion with its argument)"""
+        st = self.unit.cur
+        if st is None or id(st) not in self.unit.paths:
+            raise Shape("internal: a conversion outside a statement")
+        self.conversions.append("%s | %s | %s" % (self.unit.paths[id(st)], head_text(st), ast.unparse(node)))
 
     def lookup(self, py):
         if py in self.env:
@@ -616,6 +790,7 @@ class Tr:
 
     def lam(self, py, ty, body_node):
         """`fun py => <body : Except PyErr Bool>` for a generator condition (reads inside it may raise)"""
+        self.binds(py)
         saved, used = self.env.get(py), set(self.used)
         name = self.fresh(py)
         self.env[py] = V(name, ty)
@@ -667,7 +842,7 @@ class Tr:
         if isinstance(f, ast.Attribute) and f.attr == "astype" and len(node.args) == 1 and not node.keywords:
             v = self.expr(f.value)                               # dtype conversion: identity (recorded as written)
             self.dtype_arg(node.args[0])
-            self.conversions.append(ast.unparse(node))
+            self.record_conversion(node)
             return v
         if name == "int" and len(node.args) == 1 and not node.keywords:
             a = node.args[0]
@@ -676,7 +851,7 @@ class Tr:
                 return V("(if %s then 1 else 0)" % c.t, N, 100, nonneg=True)
             v = self.expr(a)
             if v.lit is not None or (v.ty is not None and v.ty.k in "NZ"):
-                self.conversions.append(ast.unparse(node))
+                self.record_conversion(node)
                 return v
             raise Shape("int(...) of %s" % ast.unparse(a))
         if name == "len" and len(node.args) == 1 and not node.keywords:
@@ -748,8 +923,11 @@ class Tr:
         out = []
         for p, ty in spec:
             if ty is None:
-                if p in given and not (isinstance(given[p], ast.Name) and given[p].id == p):
-                    raise Shape("argument %s of %s is not modelled and must be passed through unchanged" % (p, fn.name))
+                # not modelled: the callee must receive the CALLER's own parameter of that name (never re-bound: `binds`), and
+                # must receive it (left out, the callee would use its default instead)
+                if not (p in given and isinstance(given[p], ast.Name) and given[p].id == p and p in self.unit.unmodelled):
+                    raise Shape("argument %s of %s is not modelled and must be passed through unchanged from the caller's own "
+                                "parameter" % (p, fn.name))
                 continue
             if p not in given:
                 raise Shape("argument %s of %s is left at its default" % (p, fn.name))
@@ -791,7 +969,9 @@ class Tr:
         fn = self.nested[name]
         spec = self.cfg["nested"][name]
         args = self.call_args(fn, node, spec["params"])
+        cur = self.unit.cur
         caps = self.unit.nested_def(self, name)
+        self.unit.cur = cur
         cvs = []
         for py, ty in caps:
             v = self.lookup(py)
@@ -809,9 +989,12 @@ class Tr:
         return isinstance(node, ast.Call) and dotted(node.func) in ("list", "np.zeros")
 
     def note_binding(self, py, value_node):
-        if isinstance(value_node, ast.Name):               # `a = b`: two names for one object
-            self.owned.discard(value_node.id)
-            self.owned.discard(py)
+        if isinstance(value_node, ast.Name):               # `a = b`: two names for one object (also in the enclosing scopes)
+            tr = self
+            while tr is not None:
+                tr.owned.discard(value_node.id)
+                tr.owned.discard(py)
+                tr = tr.parent
         elif value_node is not None and self.is_fresh(value_node):
             self.owned.add(py)
         else:
@@ -824,6 +1007,7 @@ class Tr:
 
     # --- statements
     def let(self, py, v, k):
+        self.binds(py)
         if v.vec is not None:
             v = self.materialise(v)
         if v.ty == DTYPE:
@@ -855,14 +1039,23 @@ class Tr:
         s, rest = stmts[0], list(stmts[1:])
         k = lambda: self.block(rest, end)      # noqa: E731
         if ast.unparse(s) in self.cfg.get("skip", ()):            # not translated: stays in the skeleton as text
+            if id(s) not in self.unit.toplevel or self.parent is not None:
+                # inside a translated compound statement it would vanish in that statement's `...` of the skeleton
+                raise Shape("a statement that the table leaves untranslated stands inside a translated statement")
             self.unit.skipped.append(ast.unparse(s))
             return k()
         self.unit.seen.add(id(s))
+        self.unit.cur = s
         if isinstance(s, ast.Expr) and isinstance(s.value, ast.Constant) and isinstance(s.value.value, str):
             return k()
         if isinstance(s, ast.FunctionDef):
             if s.name not in self.cfg.get("nested", {}):
                 raise Shape("nested function %s is not in the table" % s.name)
+            if self.parent is not None or id(s) not in self.unit.toplevel:
+                raise Shape("nested function %s is not defined at the top level of the function body" % s.name)
+            if s.name in self.nested:
+                # closures are translated once, from ONE definition: a second `def` would change what later calls mean
+                raise Shape("nested function %s is defined twice" % s.name)
             self.nested[s.name] = s
             return k()
         if isinstance(s, ast.Return):
@@ -972,6 +1165,7 @@ class Tr:
 
     def rebind(self, py, v, k):
         """`py` now stands for the already-bound variable `v`"""
+        self.binds(py)
         self.env[py] = V(v.t, v.ty, nonneg=v.ty == N)
         self.kill_facts(py)
         return k()
@@ -992,12 +1186,16 @@ class Tr:
                     facts(tr, t, True)
         tail = not rest
 
+        owned0, owned_after = set(self.owned), []
+
         def branch(stmts, positive, bend):
             saved_env, saved_facts = dict(self.env), list(self.facts)
+            self.owned = set(owned0)
             facts(self, s.test, positive)
             node = self.block(list(stmts), bend)
             env_after = dict(self.env)
             self.env, self.facts = saved_env, saved_facts
+            owned_after.append(set(self.owned))
             return node, env_after
         if tail:                                                   # the arms continue separately
             def then(c):
@@ -1020,6 +1218,7 @@ class Tr:
         def then2(c):
             a, _ = branch(s.body, True, out_end(self))
             b, _ = branch(s.orelse, False, out_end(self))
+            self.owned = owned_after[0] & owned_after[1]          # a list is the one name's own only if it is on both paths
             ite = Ite(c.t, a, b)
             tty = tys[0] if len(tys) == 1 else T(*tys)
             var = self.fresh(names[0] if len(names) == 1 else "t")
@@ -1041,11 +1240,11 @@ class Tr:
 
     def arm(self, build):
         """translate one arm of a match from the current environment, restoring it afterwards"""
-        env, facts = dict(self.env), list(self.facts)
+        env, facts, owned = dict(self.env), list(self.facts), set(self.owned)
         try:
             return build()
         finally:
-            self.env, self.facts = env, facts
+            self.env, self.facts, self.owned = env, facts, owned
 
     def gen_next(self, value):
         if isinstance(value, ast.Call) and dotted(value.func) == "next" and len(value.args) == 1 and not value.keywords \
@@ -1064,6 +1263,8 @@ class Tr:
                 return Fail("PyErr.stopIteration")
             return self.block(list(handler) + rest, end)
 
+        self.binds(target)
+
         def cons():
             x, g1 = self.fresh(target), self.fresh(gname)
             self.env[target] = V(x, g.ty.args[0], nonneg=g.ty.args[0] == N)
@@ -1081,6 +1282,7 @@ class Tr:
         if not ok:
             raise Shape("try statement outside `try: x = next(g) / except StopIteration: … [else: …]`")
         self.unit.seen.add(id(s.body[0]))
+        self.unit.cur = s.body[0]
         tgt, value = s.body[0].targets[0].id, s.body[0].value
         g = self.gen_next(value)
         if g is not None:
@@ -1088,6 +1290,8 @@ class Tr:
         text = self.next_of(value)
         if text is None:
             raise Shape("try around something other than next(...)")
+
+        self.binds(tgt)
 
         def some():
             x = self.fresh(tgt)
@@ -1107,6 +1311,7 @@ class Tr:
             v = self.lookup(py)
             t.env[py] = V(t.fresh(py), v.ty, nonneg=v.ty == N)
         t.owned = {py for py in carried if py in self.owned}
+        t.owned_in = set(t.owned)
         return t
 
     def drawn_in(self, stmts):
@@ -1128,8 +1333,15 @@ class Tr:
             root = root.parent
         return "%s_loop%s" % (self.cfg["lean"], "" if self.loops == 1 else "_%d" % self.loops)
 
-    def finish_loop(self, name, t, carried, head_binders, alts, call_head, k, doc):
+    def finish_loop(self, name, t, carried, head_binders, alts, call_head, k, doc, nodes, params):
         """emit the loop definition and continue after the loop"""
+        allow = set(self.cfg.get("unread", ()))
+        live = set()
+        for n in nodes:
+            check_live(n, allow, "the loop `%s`" % name)
+            live |= node_reads(n, passthrough=False)
+        in_loop = [p in live for p in params]         # is the carried value read by the loop itself (not just handed on)
+        self.owned -= {py for py in getattr(t, "owned_in", ()) if py not in t.owned}       # aliased inside the loop
         tys = [self.lookup(py).ty for py in carried]
         caps = [(py, t.captured[py]) for py in self.unit.order(t.captured)]
         cap_b = " ".join("(%s : %s)" % (pv.t, pv.ty.lean()) for _, (pv, _) in caps)
@@ -1145,15 +1357,21 @@ class Tr:
         def go(i):
             if i == len(carried):
                 return k()
-            return self.let(carried[i], V(proj(var, i, len(carried)), tys[i]), lambda: go(i + 1))
-        return Bind(call, var, go(0))
+            node = self.let(carried[i], V(proj(var, i, len(carried)), tys[i]), lambda: go(i + 1))
+            if isinstance(node, Let) and in_loop[i]:
+                node.structural = True                 # read inside the loop: its value after the loop need not be
+            return node
+        node = go(0)
+        if len(carried) > 1 and var not in node_reads(node):
+            raise Shape("internal: the result of the loop %s is not read" % name)
+        return Bind(call, var, node)
 
     def recursive_call(self, t, name, head, carried):
         def end():
             caps = " ".join(t.captured[py][0].t for py in self.unit.order(t.captured))
             tys = [self.lookup(py).ty for py in carried]
             vs = [t.cast(t.lookup(py), ty) for py, ty in zip(carried, tys)]
-            return Ret(" ".join([name] + ([caps] if caps else []) + [head] + [paren(v, 100) for v in vs]), raw=True)
+            return Ret(" ".join([name] + ([caps] if caps else []) + [head] + [paren(v, 100) for v in vs]), raw=True, passthrough=True)
         return end
 
     def while_stmt(self, s, k):
@@ -1179,7 +1397,7 @@ class Tr:
             else:
                 others.append(c)
         params = [t.lookup(py).t for py in carried]
-        exit_ = Ret(params[0] if len(params) == 1 else "(%s)" % ", ".join(params))
+        exit_ = Ret(params[0] if len(params) == 1 else "(%s)" % ", ".join(params), passthrough=True)
         pats = []
         opts = [t.lookup(py) for py in refine]
         for py, o in zip(refine, opts):
@@ -1209,13 +1427,17 @@ class Tr:
                 node = Arms(", ".join(o.t for o in opts),
                             [(", ".join("some " + x for x in names), node), (", ".join("_" for _ in names), exit_)])
             return node
-        alts = []
+        alts, nodes = [], []
         for head, bc in (("0", True), ("fuel + 1", False)):
-            lines = render(body_node(bc), "    ")
+            mark = len(self.conversions)
+            nodes.append(body_node(bc))
+            if bc:
+                del self.conversions[mark:]            # the test is translated once per alternative: its conversions are recorded once
+            lines = render(nodes[-1], "    ")
             alts.append("  | %s =>\n%s" % (", ".join([head] + params), "\n".join(lines)))
         doc = ("the loop `while %s` of `%s`, at most `fuel` rounds (the table's bound: `%s`)"
                % (ast.unparse(s.test), self.cfg["func"], bounds[idx]))
-        return self.finish_loop(name, t, carried, "Nat", alts, paren(bound, 100), k, doc)
+        return self.finish_loop(name, t, carried, "Nat", alts, paren(bound, 100), k, doc, [nodes[1]], params)
 
     def for_stmt(self, s, k):
         if s.orelse or not isinstance(s.target, ast.Name):
@@ -1231,15 +1453,16 @@ class Tr:
         name = self.loop_name()
         t = self.sub(carried)
         t.loops = self.loops
+        self.binds(s.target.id)
         params = [t.lookup(py).t for py in carried]
         x = t.fresh(s.target.id)
-        exit_ = Ret(params[0] if len(params) == 1 else "(%s)" % ", ".join(params))
+        exit_ = Ret(params[0] if len(params) == 1 else "(%s)" % ", ".join(params), passthrough=True)
         t.env[s.target.id] = V(x, it.ty.args[0], nonneg=it.ty.args[0] == N)
         body = t.block(list(s.body), self.recursive_call(t, name, "rest", carried))
         alts = ["  | %s =>\n%s" % (", ".join(["[]"] + params), "\n".join(render(exit_, "    "))),
                 "  | %s =>\n%s" % (", ".join(["%s :: rest" % x] + params), "\n".join(render(body, "    ")))]
         doc = "the loop `for %s in %s` of `%s`" % (s.target.id, ast.unparse(s.iter), self.cfg["func"])
-        return self.finish_loop(name, t, carried, it.ty.lean(True), alts, paren(it, 100), k, doc)
+        return self.finish_loop(name, t, carried, it.ty.lean(True), alts, paren(it, 100), k, doc, [body], params)
 
 
 def facts_of(tr, test):
@@ -1313,9 +1536,16 @@ class Unit:
         self.pinned = {c["func"]: c for c in TARGETS if c.get("region") == "pin" and c.get("model")}
         self.aux, self.conversions, self.seen, self.while_count, self.nested_caps, self.draws_used = [], [], set(), {}, {}, []
         self.scope, self.call_count = [], {}
+        self.cur, self.paths, self.toplevel, self.pyidents, self.spelled, self.unmodelled, self.param_lean = None, {}, set(), set(), set(), set(), {}
 
     def order(self, names):
         return sorted(names, key=lambda n: self.scope.index(n) if n in self.scope else len(self.scope))
+
+    def is_defname(self, name):
+        """is `name` the name of a generated definition (a function, a nested function, a loop) or of a model helper that
+        generated text calls: never the name of a binding"""
+        fs = {c["lean"] for c in TARGETS} | {c["model"] for c in TARGETS if c.get("model")} | {n for c in TARGETS for n in c.get("nested", {})}
+        return name in fs or any(re.match(r"^%s_loop(_\d+)?$" % re.escape(f), name) for f in fs)
 
     def nested_def(self, caller, name):
         """translate the nested function `name` (once), closure-converted; -> [(captured python name, type)]"""
@@ -1336,6 +1566,7 @@ class Unit:
             t.env[py] = V(lean, ty, nonneg=ty == N)
             binders.append((lean, ty))
         node = t.block(strip_doc(fn.body), no_end(name))
+        check_live(node, set(spec.get("unread", ())), "the nested function `%s`" % name)
         caps = [(py, t.captured[py][0]) for py in self.order(t.captured)]
         sig = " ".join("(%s : %s)" % (v.t, v.ty.lean()) for _, v in caps) + " " + group_binders(binders)
         self.aux.append("/-- the nested function `%s` of `%s`; the variables of the enclosing function that it reads are its leading "
@@ -1358,8 +1589,22 @@ class Unit:
         if [x.arg for x in a.args] != [p for p, _ in cfg["params"]]:
             raise Shape("parameters of %s are %s, expected %s" % (fn.name, [x.arg for x in a.args], [p for p, _ in cfg["params"]]))
         self.aux, self.conversions, self.seen, self.nested_caps, self.draws_used = [], [], set(), {}, []
-        self.call_count, self.skipped = {}, []
+        self.call_count, self.skipped, self.param_lean = {}, [], {}
         self.scope = [x.arg for x in a.args] + [n for n, _ in cfg.get("extra_params", [])] + assigned_names(body)
+        # --- what the whole function (nested functions included) binds and mentions
+        self.cur, self.paths, self.toplevel = None, stmt_paths(body), {id(st) for st in body}
+        self.pyidents = identifiers(fn)
+        self.unmodelled = {p for p, ty in cfg["params"] if ty is None}
+        self.spelled = SPELLED | set(self.targets) | set(self.pinned) | set(cfg.get("nested", {}))
+        inner = [n for n in ast.walk(fn) if isinstance(n, (ast.FunctionDef, ast.AsyncFunctionDef, ast.ClassDef, ast.Lambda)) and n is not fn]
+        for n in inner:
+            if not isinstance(n, ast.FunctionDef) or id(n) not in self.toplevel or n.name not in cfg.get("nested", {}):
+                raise Shape("a nested definition other than the table's nested functions at the top level of the body: line %d" % n.lineno)
+        if len({n.name for n in inner}) != len(inner):
+            raise Shape("a nested function is defined twice")
+        clash = sorted((bound_names(fn) - {n.name for n in inner}) & (self.spelled | self.unmodelled))
+        if clash:
+            raise Shape("the function binds %s, which the translation resolves by spelling or passes on unmodelled" % ", ".join(clash))
         t = Tr(self, cfg)
         binders = []
         for lean, ty in cfg.get("extra_params", []):
@@ -1372,9 +1617,13 @@ class Unit:
             lean = t.fresh(py)
             t.env[py] = V(lean, ty, nonneg=ty == N)
             binders.append((lean, ty))
+            self.param_lean[py] = lean
         node = t.block(body, no_end(fn.name))
         if t.pre:
             raise Shape("internal: pending hoists")
+        check_live(node, set(cfg.get("unread", ())), "`%s`" % fn.name)
+        if set(cfg.get("nested", {})) != set(self.nested_caps):
+            raise Shape("a nested function of the table is never called")
         if sorted(self.skipped) != sorted(cfg.get("skip", ())):
             raise Shape("the statements that the table leaves untranslated were not all found")
         defs = list(self.aux)
@@ -1431,7 +1680,7 @@ def _unique_tagged(tr, b, node):
        "(its `ValueError` beyond int64 is not modelled)")
 def _dtype(tr, b, node):
     _arg(tr, b["_A"], N)
-    tr.conversions.append(ast.unparse(node))
+    tr.record_conversion(node)
     return V("()", DTYPE)
 
 
@@ -1439,7 +1688,7 @@ def _dtype(tr, b, node):
 def _zeros(tr, b, node):
     a, c = _arg(tr, b["_A"], N), _arg(tr, b["_B"], N)
     tr.dtype_arg(b["_T"])
-    tr.conversions.append(ast.unparse(node))
+    tr.record_conversion(node)
     return V("zeros2 %s %s" % (paren(a, 100), paren(c, 100)), MAT, 90)
 
 
@@ -1488,7 +1737,14 @@ def _choice(tr, b, node):
     if p is None or tr.unit.draws_used:
         raise Shape("np.random.choice: the table names no parameter for this draw (or a second draw)")
     tr.unit.draws_used.append(ast.unparse(node))
-    _arg(tr, b["_D"], MAT)
+    # the contract of the parameter (`y0 < len(DY)`, hypothesis of the obligation) names the range: the argument must BE that
+    # parameter of the function (by value: its binder, not re-bound), at the top level of the function
+    rng = tr.cfg.get("draw_range")
+    d = _arg(tr, b["_D"], MAT)
+    if tr.parent is not None or rng is None or not (isinstance(b["_D"], ast.Name) and b["_D"].id == rng) \
+            or d.t != tr.unit.param_lean.get(rng):
+        raise Shape("np.random.choice(len(%s)): the table's contract for the draw is `%s < len(%s)` of the function's own parameter"
+                    % (ast.unparse(b["_D"]), p, rng))
     return tr.lookup(p)
 
 
@@ -1542,7 +1798,7 @@ TARGETS.append(dict(
     nested={"next_i_and_j": dict(params=[("min_i", N), ("min_j", N)], ret=T(O(N), O(N)), local_types={"i": O(N), "j": O(N)}),
             "next_j": dict(params=[("i", N), ("min_j", N)], ret=O(N), local_types={"j": O(N)})},
     while_bounds=["len(reversed_v_distribution) + len(reversed_u_distribution) + 1"],
-    skeleton="...", conversions=["int(d)"],
+    skeleton="...", conversions=["@1 | d = int(d) | int(d)"],
     obligations=OBLIGATIONS["check_assignment_feasibility"],
     examples=['/-- the generated definition evaluated (non-vacuity of `1 ≤ d`; window `d = 1` fails, `d = 2` succeeds) -/\nexample : check_assignment_feasibility [0, 2, 1] [1, 1, 1] 1 = .ok false ∧\n    check_assignment_feasibility [0, 2, 1] [1, 1, 1] 2 = .ok true := by decide +kernel']))
 
@@ -1550,15 +1806,23 @@ TARGETS.append(dict(
 TARGETS.append(dict(
     func="represent_distance_matrix_rows_as_distributions", lean="represent_distance_matrix_rows_as_distributions",
     params=[("DX", MAT), ("max_d", N)], ret=MAT, skeleton="...",
-    conversions=["determine_optimal_int_type(len(DX))", "int(max_d)", "np.zeros((len(DX), int(max_d) + 1), dtype=optimal_int_type)",
-                 "np.imag(unique_distances).astype(optimal_int_type)", "np.real(unique_distances).astype(max_d.dtype)"],
+    conversions=["@2 | optimal_int_type = determine_optimal_int_type(len(DX)) | determine_optimal_int_type(len(DX))",
+                 "@3 | DX_rows_distributons = np.zeros((len(DX), int(max_d) + 1), dtype=optimal_int_type) | int(max_d)",
+                 "@3 | DX_rows_distributons = np.zeros((len(DX), int(max_d) + 1), dtype=optimal_int_type) | "
+                 "np.zeros((len(DX), int(max_d) + 1), dtype=optimal_int_type)",
+                 "@4 | distance_frequencies_index_pairs = (np.imag(unique_distances).astype(optimal_int_type), "
+                 "max_d - np.real(unique_distances).astype(max_d.dtype)) | np.imag(unique_distances).astype(optimal_int_type)",
+                 "@4 | distance_frequencies_index_pairs = (np.imag(unique_distances).astype(optimal_int_type), "
+                 "max_d - np.real(unique_distances).astype(max_d.dtype)) | np.real(unique_distances).astype(max_d.dtype)"],
     obligations=OBLIGATIONS["represent_distance_matrix_rows_as_distributions"],
     examples=['/-- the path on 5 vertices: entries `≤ 4`, and the generated definition evaluated -/\nexample : (∀ row ∈ [[0, 1, 2, 3, 4], [1, 0, 1, 2, 3], [2, 1, 0, 1, 2], [3, 2, 1, 0, 1], [4, 3, 2, 1, 0]], ∀ x ∈ row, x ≤ 4) ∧\n    represent_distance_matrix_rows_as_distributions [[0, 1, 2, 3, 4], [1, 0, 1, 2, 3], [2, 1, 0, 1, 2], [3, 2, 1, 0, 1], [4, 3, 2, 1, 0]] 4 =\n      .ok [[1, 1, 1, 1], [0, 1, 1, 2], [0, 0, 2, 2], [0, 1, 1, 2], [1, 1, 1, 1]] := by decide +kernel']))
 
 # ---- find_largest_size_bounded_curvature  ->  largestBoundedCurvature exactMul
 TARGETS.append(dict(
     func="find_largest_size_bounded_curvature", lean="find_largest_size_bounded_curvature",
-    params=[("DX", MAT), ("diam_X", N), ("d", N)], ret=MAT, skeleton="...", conversions=["int(diam_X)"],
+    params=[("DX", MAT), ("diam_X", N), ("d", N)], ret=MAT, skeleton="...",
+    conversions=["@2.1 | K_rows_sortkeys = -np.sum(K < d, axis=0) * (len(K) * int(diam_X)) + np.sum(np.ma.masked_less(K, d), axis=0).data "
+                 "| int(diam_X)"],
     while_bounds=["len(DX)"],
     obligations=OBLIGATIONS["find_largest_size_bounded_curvature"],
     examples=['/-- the path on 5 vertices is square; its largest 2-bounded curvature found by the loop keeps the two end points -/\nexample : Sq [[0, 1, 2, 3, 4], [1, 0, 1, 2, 3], [2, 1, 0, 1, 2], [3, 2, 1, 0, 1], [4, 3, 2, 1, 0]] ∧\n    find_largest_size_bounded_curvature [[0, 1, 2, 3, 4], [1, 0, 1, 2, 3], [2, 1, 0, 1, 2], [3, 2, 1, 0, 1], [4, 3, 2, 1, 0]] 4 2 = .ok [[0, 4], [4, 0]] := by decide +kernel']))
@@ -1598,7 +1862,7 @@ TARGETS.append(dict(
 # ---- construct_mapping  ->  constructMapping (the first image `np.random.choice(len(DY))` is the parameter y0)
 TARGETS.append(dict(
     func="construct_mapping", lean="construct_mapping", params=[("DX", MAT), ("DY", MAT), ("pi", L(N))], ret=T(L(N), N),
-    extra_params=[("y0", N)], draw_param="y0", local_types={"distortion": N}, skeleton="...",
+    extra_params=[("y0", N)], draw_param="y0", draw_range="DY", local_types={"distortion": N}, skeleton="...",
     obligations=OBLIGATIONS.get("construct_mapping", []),
     examples=['/-- path into star with the permutation `[2, 0, 1, 4, 3]` and first image `1` -/\nexample : construct_mapping 1 [[0, 1, 2, 3, 4], [1, 0, 1, 2, 3], [2, 1, 0, 1, 2], [3, 2, 1, 0, 1], [4, 3, 2, 1, 0]] [[0, 1, 1, 1, 1], [1, 0, 2, 2, 2], [1, 2, 0, 2, 2], [1, 2, 2, 0, 2], [1, 2, 2, 2, 0]] [2, 0, 1, 4, 3] = .ok ([1, 2, 0, 1, 1], 2) := by decide +kernel']))
 
@@ -1608,6 +1872,7 @@ TARGETS.append(dict(
     params=[("DX", MAT), ("DY", MAT), ("mapping_sample_size_order", None), ("goal_distortion", N)], ret=N,
     extra_params=[("permutations_generator", L(L(N))), ("y0s", L(N))], generators=("permutations_generator",),
     draws={"construct_mapping": "y0s"}, local_types={"ub_of_min_distortion": O(N)},
+    unread=["mapped_xs_images"],       # `mapped_xs_images, distortion = construct_mapping(DX, DY, pi)`: only the distortion is used
     skip=["n_mappings_to_sample = int(np.ceil(np.prod(np.array([len(DX), np.log(len(DX) + 1)]) ** mapping_sample_size_order)))",
           "permutations_generator = (np.random.permutation(len(DX)) for _ in range(n_mappings_to_sample))"],
     while_bounds=["len(permutations_generator) + 1"],
@@ -1694,7 +1959,7 @@ HEADER = (
     "scripts are fixed in the translator's table) then no longer checks (DESIGN.md 3.2/3.3).  What is not translated is pinned as\n"
     "TEXT (`ast.unparse`): `srcSkeleton_<f>` (the body with the translated statements as `...`; the whole body for the functions\n"
     "that are only pinned), `srcSignature_<function>`, `srcConversions_<f>` (dtype / int conversions read as the identity, as\n"
-    "written), `srcBindings_mgh` (every module-level binding of every name the functions use).\n\n"
+    "written, with their position), `srcBindings_mgh` (every module-level binding of every name the functions use).\n\n"
     "Conventions of the translation (the translator's semantics of its Python subset):\n"
     "  * every definition has type `Except PyErr τ`: `return e` is `.ok e`; a call of a generated definition, a list read `l[k]`\n"
     "    (`getItem`: `IndexError`), a list write `l[k] = e` (`setItem`) is `match … with | .error e => .error e | .ok x => …` where\n"
@@ -1705,7 +1970,9 @@ HEADER = (
     "    an `Int` is used as a natural only through `.toNat` of a visibly non-negative expression (`max(e, n)`, `n` natural); the\n"
     "    end of a `range` may be negative (`pyRange`).  Fixed-width NumPy integers are NOT modelled (no overflow: the code sizes\n"
     "    them with `determine_optimal_int_type`, tied in Generated/SrcGraph.lean, and converts scalars with `int(...)`): `astype`,\n"
-    "    `dtype=`, `int(n)` are the identity and are recorded in `srcConversions_<f>`;\n"
+    "    `dtype=`, `int(n)` are the identity and are recorded in `srcConversions_<f>`, each WITH ITS POSITION (`<path of the statement\n"
+    "    in the function: @3.1 = first statement of the body of the third> | <the statement as written> | <the conversion>`): moving\n"
+    "    an `int(...)` changes the pin;\n"
     "  * an in-place update `l[k] = e`, `l[k] -= e`, `l.append(e)` gives the ONE name `l` a new value; it is accepted only for a list\n"
     "    created in the function (`list(…)`, a list display, `np.zeros`) to which no other name refers (no parameter, alias or view);\n"
     "  * `None` is `none`; `x is not None` in a `while` test refines `x` to its value in the body;\n"
@@ -1721,6 +1988,12 @@ HEADER = (
     "  * an `if` that ends its block is an if-expression whose arms continue separately, otherwise it yields the names its arms assign;\n"
     "  * library calls: TABLE ENTRIES (definitions of Lemmas/SrcLibNp.lean, conventions stated there): %s.\n"
     "    PARAMETERS with a contract: %s.\n"
+    "REFUSED (the obligations hold up to definitional unfolding, which would absorb them): a DEAD STORE -- a generated `let` / bound\n"
+    "result / loop-carried value that nothing of the generated code reads (allow-list of the stores of the reviewed source that\n"
+    "nothing reads: %s); binding a name the translation resolves by spelling (`int`, `len`, `np`, a function of the module, a nested\n"
+    "function) or a parameter that is not modelled; a second `def` of a nested function, or one that is not at the top level of the\n"
+    "body; a call that does not pass the caller's own `mapping_sample_size_order` on; `np.random.choice(len(D))` with `D` other than\n"
+    "the parameter the draw's contract names; an untranslated (`skip`) statement inside a translated one.\n"
     "A source outside the subset gives `def srcShape_<f> : Bool := false`, and `srcShape_<f>_recognised` fails.\n"
     "-/\n"
     "set_option linter.unusedVariables false\n"
@@ -1740,11 +2013,17 @@ PARAM_NOTE = ("the NumPy random generator -- `np.random.choice(len(DY))` in `con
               "    which is only pinned as text and stands for the model's `uniqueMaxDistributions` in its caller")
 
 
+def UNREAD_NOTE():
+    items = ["`%s` in `%s`" % (n, c["func"]) for c in TARGETS for n in c.get("unread", ())]
+    items += ["`%s` in `%s` of `%s`" % (n, k, c["func"]) for c in TARGETS for k, sp in c.get("nested", {}).items() for n in sp.get("unread", ())]
+    return ", ".join(items) or "(none)"
+
+
 def render_file(key, root):
     py, out, ns, imports, prop, opens = FILES[key]
     model = imports.split("\nimport ")[0]
     o = [HEADER % (imports, py, prop, model.replace("PersimVerif.", "PersimVerif/").replace(".", "/") + ".lean",
-                   TABLE_NOTE, PARAM_NOTE, ns, opens)]
+                   TABLE_NOTE, PARAM_NOTE, UNREAD_NOTE(), ns, opens)]
     info = {"source": py, "output": "/".join([GEN.replace(os.sep, "/"), out]), "functions": {}}
     err0, unit, tree = None, None, None
     try:
@@ -1836,8 +2115,11 @@ def manifest_note(key):
             "`for` as structural recursion, `while` as bounded iteration), and proved, for all inputs under the stated hypotheses, to "
             "raise nothing, to terminate within the bound and to return the value of the hand-written model definitions: %s; pinned as "
             "text only: %s; an edit of the translated lines breaks a generated obligation and triggers the failing-input search, except "
-            "a renaming of locals.  Conversions read as the identity, signatures and module-level bindings are pinned as text "
-            "(src_<f>_conversions, src_<f>_signature, src_<f>_skeleton, src_mgh_bindings).  Not tied by the translator: the callers, "
+            "a renaming of locals.  Conversions read as the identity (each with the position and text of the statement it stands in), "
+            "signatures and module-level bindings are pinned as text "
+            "(src_<f>_conversions, src_<f>_signature, src_<f>_skeleton, src_mgh_bindings); a store that no translated code reads, a "
+            "re-bound name that is resolved by spelling, a second definition of a nested function and a dropped or re-bound "
+            "`mapping_sample_size_order` are refused.  Not tied by the translator: the callers, "
             "dynamic rebinding, NumPy behind the idiom table (trusted: the translator's conventions, its tables and "
             "Lemmas/SrcLibNp.lean)." % (FILES[key][0], FILES[key][1], ", ".join(tr) or "(none)", ", ".join(pins) or "(none)"))
 
